@@ -1,3 +1,7 @@
 import Tramp.Model.Bytes
 import Tramp.Model.Fee
 import Tramp.Model.Classify
+import Tramp.Model.Node
+import Tramp.Model.Provider
+import Tramp.Model.Config
+import Tramp.Model.Spec
